@@ -108,6 +108,20 @@ def nestedDelegate : List Str → Str → Res Str
     let q ← subDelegate sub p
     nestedDelegate parents q
 
+/-- `SubFS.delegate_path` **as coded**: the parent's `invalid_path_chars` are refused first
+(`errors.InvalidCharsInPath`), before `normpath` could remove them (`"x\0/.."`) -/
+def subDelegateChk (invalid : List Char) (sub : Str) (p : Str) : Res Str :=
+  if p.any (fun c => invalid.contains c) then .err .InvalidCharsInPath
+  else subDelegate sub p
+
+/-- a chain of nested `SubFS` objects as coded; every level asks its own parent for the invalid
+characters (MemoryFS, OSFS and a SubFS of them all answer `"\0"`) -/
+def nestedDelegateChk (invalid : List Char) : List Str → Str → Res Str
+  | [], p => .ok p
+  | sub :: parents, p => do
+    let q ← subDelegateChk invalid sub p
+    nestedDelegateChk invalid parents q
+
 /-! ### MountFS -/
 
 /-- `MountFS.mount`: the stored mount path `forcedir(abspath(normpath(path)))` -/
